@@ -319,6 +319,8 @@ def gen_policy(rng, wf, kind='complete', opts=None):
         pol['poll_late'] = rng.random() < opts.get('p_poll_late', 0.0)
     if opts.get('fail_signals'):
         pol['fail_signals'] = True
+    if opts.get('silent_kill'):
+        pol['silent_kill'] = True
     if opts.get('p_lose'):
         pol['p_lose'] = opts['p_lose']
     if opts.get('p_vacate'):
@@ -429,6 +431,8 @@ def gen_policy(rng, wf, kind='complete', opts=None):
         # a reload right behind another command (same command batch, no main loop in between), e.g. pause /
         # stop point / hold followed at once by a reload
         pol['p_reload_after_cmd'] = (opts or {}).get('p_reload_after_cmd', 0.4)
+        # share of reloads aimed at a definition without a pooled task that has already started
+        pol['p_orphan_started'] = (opts or {}).get('p_orphan_started', 0.3)
     if kind in ('crash', 'crashany', 'cmdcrash', 'cmdcrashany'):
         # C20 (additive; new kinds, drawn after everything else): the scheduler is killed 1-4 times per run - between
         # ops (k = -1) or inside a main loop at its k-th database commit boundary, before the transaction (j null) or
@@ -499,6 +503,10 @@ def gen_case(seed: int, kind='complete', opts=None):
             'policy': gen_policy(rng, wf, kind, opts), 'ops': None, 'kind': kind}
     if kind.startswith('set') and (opts or {}).get('suic'):
         case['policy']['suic'] = True
+    if kind.startswith('set') and (opts or {}).get('nf2'):
+        # C29 (additive, option 'nf2'): a `cylc set --out --flow=none` of an instance that is not in the pool is followed
+        # (p = 0.6 at the next --out command) by the same outputs on the same instance in a real flow
+        case['policy']['nf2'] = True
     if kind.startswith('set') and (opts or {}).get('xtrig'):
         # C29 (additive, option 'xtrig', own random stream so that nothing else of the case changes): long retry
         # delays - a task that fails (or fails to submit) with a retry left keeps waiting on its retry xtrigger
